@@ -97,7 +97,7 @@ def _values_domain(extra):
 contract(
     target=f"{M}::_find_binding",
     params={"target_set": Ref("AttributeSet"), "key": Str},
-    returns=Ref("Binding"),
+    returns=Opt(Ref("Binding")),
     ensures=["result is first_binding(target_set.values, key)", "heap_unchanged()"],
     domain=lambda tier: _values_domain(lambda s, k: {"target_set": s, "key": k})(tier),
     props=["C05", "C12", "C14"],
@@ -106,7 +106,7 @@ contract(
 contract(
     target=f"{M}::_find_attrpath_root",
     params={"target_set": Ref("AttributeSet"), "root": Str},
-    returns=Ref("Binding"),
+    returns=Opt(Ref("Binding")),
     ensures=["result is first_binding(target_set.values, root, True)", "heap_unchanged()"],
     loops={0: Loop(invariant=["all(not (isinstance(target_set.values[j], Binding) and target_set.values[j].nested and "
                               "target_set.values[j].name == root) for j in range(_i))"])},
@@ -117,7 +117,7 @@ contract(
 contract(
     target=f"{M}::_find_named_binding",
     params={"values": ListRef(), "key": Str, "nested": OneOf(NoneT, Lit(True), Lit(False))},
-    returns=Ref("Binding"),
+    returns=Opt(Ref("Binding")),
     ensures=["result is first_binding(values, key, nested)", "heap_unchanged()"],
     loops={0: Loop(invariant=[
         "all(not (isinstance(values[j], Binding) and values[j].name == key and (nested is None or values[j].nested == nested)) "
@@ -248,7 +248,7 @@ _STACK_SHAPE = [
 contract(
     target=f"{M}::_walk_attrpath_stack",
     params={"target_set": Ref("AttributeSet"), "segments": ArrOf("str"), "leaf_nested": Bool, "require_root": OneOf(Lit(True), Lit(False))},
-    returns=ListRef("tuple"),
+    returns=Opt(ListRef("tuple")),
     locals={"stack": ListRef("tuple")},
     entry_closure=True,
     modifies=[],
@@ -303,6 +303,36 @@ contract(
         0: Loop(invariant=["True"], modifies=["target_set.attrpath_order[]"]),
         1: Loop(invariant=["True"], modifies=["<entry-lists>[]"]),
     },
+    domain=False,
+    props=["C05", "C04", "C08"],
+)
+
+contract(
+    target=f"{M}::_set_attrpath_value",
+    params={"target_set": Ref("AttributeSet"), "root": Ref("Binding"), "segments": ArrOf("str"), "value_expr": Ref("NixExpression")},
+    returns=NoneT,
+    requires=["len(segments) >= 2", "root is not None and value_expr is not None"],
+    entry_closure=True,
+    modifies=["*"],
+    externals={"_AttrpathEntry": External(returns=Ref("_AttrpathEntry"), fresh=True, params=["segments", "binding"],
+                                          ensures=["result.binding is binding"],
+                                          note="constructor of the frozen order entry (its `segments` tuple is not modelled here)")},
+    call_asserts={
+        # what is appended as the new leaf: a plain (non-nested) binding of the last segment holding exactly the given value
+        "current.values.append#1": ["arg0.name == segments[len(segments) - 1] and arg0.value is value_expr and not arg0.nested"],
+        # intermediate levels that had to be created: an empty nested set under the segment's name
+        "current.values.append#0": ["arg0.name == seg and arg0.nested and isinstance(arg0.value, AttributeSet) and len(arg0.value.values) == 0"],
+        "target_set.attrpath_order.append": ["arg0.binding is new_binding"],
+    },
+    # set never removes or reorders anything, and the only field of an existing object it may write is a binding's `value`
+    ensures=['heap_unchanged("value", "lists-grow")'],
+    # a refused edit has touched nothing: intermediate sets are only created on the way to a spot where nothing can fail any more (C08)
+    exsures={"ValueError": ["heap_unchanged()"]},
+    loops={0: Loop(invariant=[
+        "isinstance(current, AttributeSet)",
+        "heap_unchanged() or (current >= alloc_at_entry() and len(current.values) == 0)",
+        'heap_unchanged("lists-grow")',
+    ], modifies=["<entry-lists>[]"])},
     domain=False,
     props=["C05", "C04", "C08"],
 )
